@@ -26,6 +26,7 @@ mod c14;
 mod c15;
 mod c16;
 mod c17;
+mod c18;
 mod cat;
 mod conv;
 mod dev;
